@@ -23,7 +23,7 @@ RULE = ("seeded random FeatureCollections: 0-8 features, heterogeneous property 
         "and arbitrary names (spaces, quotes, backslashes, non-ASCII), indent in {default,0,1,4,None}, plain and compressed paths; non-trivial "
         "= >= 2 features or an extra member; distinct = distinct (feature count class, property kinds, geometry kinds, member-name class, indent, suffix)")
 ASSUMPTIONS = [
-    "not generated: a property literally named 'geometry', keys with mixed value types across features, 'properties': null, empty-string property values (the library's string NA is '')",
+    "not generated: a property literally named 'geometry', keys with mixed value types across features, empty-string property values (the library's string NA is '')",
     "numbers compare by value (1 == 1.0), booleans strictly",
 ]
 REACH = {"quick": {"features:0": 100, "null-geometry": 300, "hostile-member-name": 300, "ragged-properties": 800, "suffix:compressed": 500, "written-json-parsed": 2500, "features:>1000": 3}}
@@ -55,6 +55,8 @@ def generate(rng, tier):
             r = rng.random()
             if r < 0.2: continue
             props[k] = None if r < 0.35 else rng.choice(pools[kinds[k]])
+        if not props and rng.random() < 0.4:
+            props = None        # RFC 7946: "properties" is an object or null
         feats.append({"type": "Feature", "properties": props, "geometry": copy_geom(rng.choice(GEOMS))})
     doc = {"type": "FeatureCollection"}
     for name in rng.sample(MEMBER_NAMES, rng.choice([0, 0, 1, 2, 3])):
@@ -92,7 +94,9 @@ def jeq_unordered(a, b):
 def execute(case):
     import dataiter as di
     doc, indent, suffix = case["doc"], case["indent"], case["suffix"]
-    feats = doc["features"]
+    # expectations are phrased over features whose null properties read as "no properties"
+    feats = [dict(f, properties=f["properties"] or {}) for f in doc["features"]]
+    null_props = any(f["properties"] is None for f in doc["features"])
     nf = len(feats)
     members = {k: v for k, v in doc.items() if k not in ("type", "features")}
     hostile = any(any(ch in k for ch in '"\\\t\n') or not k.isascii() for k in members)
@@ -102,6 +106,7 @@ def execute(case):
     if nf > 1000: res.cls("features:>1000")
     if any(f["geometry"] is None for f in feats): res.cls("null-geometry")
     if hostile: res.cls("hostile-member-name")
+    if null_props: res.cls("null-properties")
     if suffix: res.cls("suffix:compressed")
     keys = []
     for f in feats:
